@@ -70,11 +70,14 @@ def gen(ctx):
             lines.append('bmp.mask %s %s %s' % (show(inp), show(used), show(pat)))
         img = mkimg(r, w, r.range(1, 6))
         lines.append('bmp.ones %s' % show(img))
-        for _ in range(3):
-            x, y = r.range(-2, w + 1), r.range(-2, img[3] + 1)
+        hh = img[3]
+        # every edge deterministically: the corners, and the first coordinate outside on each side
+        pts = [(0, 0), (w - 1, hh - 1), (w, 0), (w, hh - 1), (-1, 0), (0, -1), (0, hh), (w - 1, hh), (w, hh)]
+        pts += [(r.range(-2, w + 1), r.range(-2, hh + 1)) for _ in range(3)]
+        for (x, y) in pts:
             lines.append('bmp.at %s %d %d' % (show(img), x, y))
-            lines.append('bmp.set %s %d %d %d' % (show(img), x, y, r.below(2)))
-            lines.append('bmp.xor %s %d %d %d' % (show(img), x, y, r.below(2)))
+            lines.append('bmp.set %s %d %d %d' % (show(img), x, y, 1 - px(img, x, y) if 0 <= x < w and 0 <= y < hh else 1))
+            lines.append('bmp.xor %s %d %d %d' % (show(img), x, y, 1))
     # Clone / Copy of minimal-stride images that were NOT built by New, and New itself, every width (incl. multiples of 8)
     for w in range(1, 185):
         hh = r.range(2, 5)
